@@ -93,6 +93,21 @@ def plugin_path(d):
     return str(p)
 
 
+def out_period(case):
+    """One slice of the lattice uses an output period of more than a day (only the initial record falls into the run)."""
+    return [30, "h"] if (case["dt"] == "list" and case["optional"] == "empty") else [10, "m"]
+
+
+def ref_time(case):
+    """Reference time: 06:00 on the day before (a non-zero time of day), in one slice the epoch itself."""
+    return "1970-01-01T00:00:00" if (case["dt"] == "iso" and case["optional"] == "omitted") else world.iso(S0 - 86400)
+
+
+def ibm_options(case):
+    """IBM options beside the module; in one slice an option whose legal value 0.0 differs from the module's default."""
+    return dict(age=True, **(dict(age_rate=0.0) if case["diffusion"] == 2.5 else {}))
+
+
 def render_v2(case, d, cols, outname, native_time=False):
     """Version-2 dictionary (rendered to YAML and to TOML)."""
     c = dict(version=2)
@@ -100,7 +115,7 @@ def render_v2(case, d, cols, outname, native_time=False):
     if case["reference"]:
         import datetime as _dt
 
-        ref = world.iso(S0 - 86400)  # 06:00 on the day before: a non-zero time of day
+        ref = ref_time(case)
         c["time"]["reference"] = _dt.datetime.fromisoformat(ref) if native_time else ref
     plugin_mod = case["grid"] == "explicit-plugin-nomodule"
     c["forcing"] = dict(module=plugin_path(d) if plugin_mod else "ladim.ROMS", filename=forcing_name(case, d))
@@ -136,14 +151,14 @@ def render_v2(case, d, cols, outname, native_time=False):
     if case["release"] == "continuous":
         c["release"].update(continuous=True, release_frequency=[20, "m"])
     if case["ibmvar"]:
-        c["ibm"] = dict(module=drive.plug("sibm.py"), age=True)
+        c["ibm"] = dict(module=drive.plug("sibm.py"), **ibm_options(case))
     elif case["optional"] == "empty":
         c["ibm"] = {}
     if case["optional"] == "empty":
         c["warm_start"] = {}
     inst = ["pid", "X", "Y", "Z"] + (["age"] if case["ibmvar"] else [])
     part = [v for v in pv]
-    c["output"] = dict(filename=str(d / outname), output_period=[10, "m"],
+    c["output"] = dict(filename=str(d / outname), output_period=out_period(case),
                        instance_variables={v: dict(encoding=dict(datatype=OUTFMT[v][0]), attributes=dict(long_name=OUTFMT[v][1])) for v in inst})
     if part:
         c["output"]["particle_variables"] = {v: dict(encoding=dict(datatype=OUTFMT[v][0]), attributes=(dict(long_name=OUTFMT[v][1], units="seconds since reference_time") if v == "release_time" else dict(long_name=OUTFMT[v][1]))) for v in part}
@@ -155,7 +170,7 @@ def render_v1(case, d, cols, outname):
     c = {}
     c["time_control"] = dict(start_time=world.iso(S0), stop_time=world.iso(S0 + NSTEPS * DT))
     if case["reference"]:
-        c["time_control"]["reference_time"] = world.iso(S0 - 86400)
+        c["time_control"]["reference_time"] = ref_time(case)
     c["files"] = dict(particle_release_file=str(d / "r.rls"), output_file=str(d / outname))
     if case["dt"] == "list":  # old-style lines left in the `files` section while `gridforce` names the files that count
         c["files"]["input_file"] = str(d / "decoy_0.nc")
@@ -186,9 +201,9 @@ def render_v1(case, d, cols, outname):
         pr["particle_variables"] = pvars
     c["particle_release"] = pr
     if case["ibmvar"]:
-        c["ibm"] = dict(ibm_module=drive.plug("sibm.py"), variables=["age"], age=True)
+        c["ibm"] = dict(ibm_module=drive.plug("sibm.py"), variables=["age"], **ibm_options(case))
     inst = ["pid", "X", "Y", "Z"] + (["age"] if case["ibmvar"] else [])
-    ov = dict(outper=[10, "m"], format="NETCDF4", instance=inst, particle=pvars)
+    ov = dict(outper=out_period(case), format="NETCDF4", instance=inst, particle=pvars)
     shared = dict(ncformat="f8", long_name="horizontal position")  # X and Y share ONE definition: yaml.safe_dump writes an anchor and an alias
     for v in inst + pvars:
         ov[v] = shared if v in ("X", "Y") else dict(ncformat=OUTFMT[v][0], long_name=OUTFMT[v][1])
@@ -363,7 +378,7 @@ def run_case(case):
     # the run itself must be a real one
     if ref in results:
         recs = results[ref]["records"]
-        if len(recs) != NSTEPS or recs[-1]["count"] < 3:
+        if len(recs) != (NSTEPS if out_period(case) == [10, "m"] else 1) or recs[-1]["count"] < 3:
             bad("vacuous", f"reference run wrote {len(recs)} records, last with {recs[-1]['count'] if recs else 0} particles")
         if ref in configs:
             exp_grid = "gridfile.nc" if case["grid"].startswith("explicit") else "f_000.nc" if case["grid"] != "omitted-plain" else "single.nc"
